@@ -52,6 +52,7 @@ type slStep struct {
 
 type slHistory struct {
 	NVars int      `json:"vars"`
+	Elem  string   `json:"element_type"`
 	Steps []slStep `json:"steps"`
 }
 
@@ -62,7 +63,34 @@ type slGen struct {
 	val  int
 }
 
-func (g *slGen) nextVal() int { g.val++; return g.val*3 + 1 }
+func (g *slGen) nextVal() int { g.val++; return c11Norm(g.h.Elem, g.val*3+1) }
+
+// c11Norm wraps a value to the element type (the model computes over ints).
+func c11Norm(elem string, x int) int {
+	if elem == "uint8" {
+		return x & 255
+	}
+	return x
+}
+
+// c11Probe is a type-sensitive use of the first element: it shows whether the element has the slice's
+// element type (a float64 element halves exactly, a uint8 element wraps).
+func c11Probe(elem string, e int) string {
+	switch elem {
+	case "float64":
+		return strconv.FormatFloat(float64(e)/2, 'g', -1, 64)
+	case "uint8":
+		return strconv.Itoa((e + 200) & 255)
+	}
+	return strconv.Itoa(e / 2)
+}
+
+func c11ProbeExpr(elem, name string) string {
+	if elem == "uint8" {
+		return name + "[0]+200"
+	}
+	return name + "[0]/2"
+}
 
 func (g *slGen) shared(i int) bool {
 	if g.vars[i].arr == nil {
@@ -81,6 +109,9 @@ func (g *slGen) snapshot() []string {
 	var out []string
 	for i, v := range g.vars {
 		out = append(out, fmt.Sprintf("s%d %s %d %v", i, v.render(), v.ln, v.isNil))
+		if v.ln > 0 {
+			out = append(out, "h "+c11Probe(g.h.Elem, v.elems()[0]))
+		}
 	}
 	return out
 }
@@ -114,10 +145,16 @@ func (g *slGen) step() {
 	switch c := g.r.Intn(24); {
 	case c < 2: // make
 		ln := g.r.Intn(5)
+		if g.r.Chance(1, 3) {
+			ln = g.r.Range(5, 20) // beyond small-size thresholds
+		}
 		g.vars[k] = slView{arr: &slArray{data: make([]int, ln)}, ln: ln, cp: ln, capKnown: true}
-		g.add(fmt.Sprintf("%s = make([]int, %d)", name(k), ln))
+		g.add(fmt.Sprintf("%s = make([]%s, %d)", name(k), g.h.Elem, ln))
 	case c < 5: // literal
 		ln := g.r.Intn(5)
+		if g.r.Chance(1, 5) {
+			ln = g.r.Range(5, 12)
+		}
 		a := &slArray{}
 		var lits []string
 		for i := 0; i < ln; i++ {
@@ -126,7 +163,7 @@ func (g *slGen) step() {
 			lits = append(lits, strconv.Itoa(x))
 		}
 		g.vars[k] = slView{arr: a, ln: ln, cp: ln, capKnown: true}
-		g.add(fmt.Sprintf("%s = []int{%s}", name(k), strings.Join(lits, ", ")))
+		g.add(fmt.Sprintf("%s = []%s{%s}", name(k), g.h.Elem, strings.Join(lits, ", ")))
 	case c < 6: // nil
 		g.vars[k] = slView{isNil: true}
 		g.add(fmt.Sprintf("%s = nil", name(k)))
@@ -232,7 +269,7 @@ func (g *slGen) step() {
 		for i := 0; i < ln0; i++ {
 			e := v.arr.data[v.off+i]
 			extra = append(extra, fmt.Sprintf("r %d %d", i, e))
-			v.arr.data[v.off+(i+1)%ln0] = e + 100
+			v.arr.data[v.off+(i+1)%ln0] = c11Norm(g.h.Elem, e+100)
 		}
 		g.add(fmt.Sprintf("for i, e := range %s { println(\"r\", i, e); %s[(i+1)%%len(%s)] = e + 100 }", name(k), name(k), name(k)), extra...)
 	}
@@ -269,6 +306,7 @@ func c11Gen(seed int64, idx int) slHistory {
 	g := &slGen{r: core.Derive(seed, "c11", idx)}
 	n := g.r.Range(3, 7)
 	g.h.NVars = n
+	g.h.Elem = core.Pick(g.r, []string{"int", "int", "float64", "uint8"})
 	for i := 0; i < n; i++ {
 		g.vars = append(g.vars, slView{isNil: true})
 	}
@@ -284,9 +322,12 @@ func c11Gen(seed int64, idx int) slHistory {
 
 func c11Script(h slHistory) string {
 	var sb strings.Builder
-	sb.WriteString("func hist(z int) {\n\tvar t []int\n\tw := 0\n\t_, _ = t, w\n")
+	if h.Elem == "" {
+		h.Elem = "int"
+	}
+	fmt.Fprintf(&sb, "func hist(z int) {\n\tvar t []%s\n\tvar w %s\n\t_, _ = t, w\n", h.Elem, h.Elem)
 	for i := 0; i < h.NVars; i++ {
-		fmt.Fprintf(&sb, "\tvar s%d []int\n", i)
+		fmt.Fprintf(&sb, "\tvar s%d []%s\n", i, h.Elem)
 	}
 	for si, st := range h.Steps {
 		fmt.Fprintf(&sb, "\tprintln(\"#\", %d)\n\t%s\n", si, st.Stmt)
@@ -295,6 +336,7 @@ func c11Script(h slHistory) string {
 		}
 		for i := 0; i < h.NVars; i++ {
 			fmt.Fprintf(&sb, "\tprintln(\"s%d\", s%d, len(s%d), s%d == nil)\n", i, i, i, i)
+			fmt.Fprintf(&sb, "\tif len(s%d) > 0 {\n\t\tprintln(\"h\", %s)\n\t}\n", i, c11ProbeExpr(h.Elem, fmt.Sprintf("s%d", i)))
 		}
 	}
 	sb.WriteString("\tprintln(\"done\")\n}\nhist(0)\n")
@@ -339,7 +381,7 @@ func c11Decide(h slHistory) (what string, src string, got core.Outcome, want str
 }
 
 func runC11(r *core.Run) {
-	r.SetRule("histories of 12-40 steps over a pool of 3-7 []int variables: make, literal, nil, sub-slice (all five spellings, upper bound up to the capacity when the specification fixes it, bounds computed through a variable), element write, append of 1-3 values, append-spread including self-spread, copy incl. overlapping, range with writes in the body; every variable's contents, length and nil-ness are printed after every step; one third of the histories end with an out-of-range index or slice expression with computed bounds, which must be an error. non-trivial = at least 8 steps executed; distinct by script text")
+	r.SetRule("histories of 12-40 steps over a pool of 3-7 slice variables of one element type (int, float64 or uint8): make (lengths 0-20), literal, nil, sub-slice (all five spellings, upper bound up to the capacity when the specification fixes it, bounds computed through a variable), element write, append of 1-3 values, append-spread including self-spread, copy incl. overlapping, range with writes in the body; every variable's contents, length, nil-ness and a type-sensitive use of its first element (halved for float64, +200 wrapped for uint8) are printed after every step; one third of the histories end with an out-of-range index or slice expression with computed bounds, which must be an error. non-trivial = at least 8 steps executed; distinct by script text")
 	r.Assume("the model implements the Go specification: make(len) and literals have cap == len, s[i:j] has cap(s)-i, append within capacity writes in place, append beyond it yields a fresh array of unspecified spare capacity; the generator never appends to a slice of unspecified spare capacity while another live variable shares its array, so no expected value depends on the growth policy")
 	n := r.N(6000, 200000)
 	core.Parallel((n+99)/100, func(chunk int) {
